@@ -118,7 +118,13 @@ def make_data(wrapped, extra=None):
     def mk():
         return [4, 5]
 
-    d = {"seq": [3, 1, 2, 3], "recs": [{"n": 1, "a": "x"}, {"n": 2, "a": "y"}, {"n": 1, "a": "z"}], "empty": [],
+    def geni():
+        yield from [7, 8, 9]
+
+    def stop():
+        raise StopIteration
+
+    d = {"geni": geni, "stop": stop, "seq": [3, 1, 2, 3], "recs": [{"n": 1, "a": "x"}, {"n": 2, "a": "y"}, {"n": 1, "a": "z"}], "empty": [],
          "words": ["b", "a"], "fn": fn, "mk": mk, "n": 5, "s": "str",
          "recs2": [{"n": 1, "a": "x"}, {"a": "Y"}, {"n": 1}, {"a": "y", "n": 2}]}
     if extra:
@@ -132,7 +138,14 @@ def make_data(wrapped, extra=None):
         async def amk():
             return AIterable([4, 5])
 
-        d.update(fn=afn, mk=amk, seq=AIterable(d["seq"]), recs=AIterable(d["recs"]), empty=AIterable([]), words=AIterable(d["words"]),
+        async def ageni():
+            for x in [7, 8, 9]:
+                yield x
+
+        async def astop():
+            raise StopIteration
+
+        d.update(geni=ageni, stop=astop, fn=afn, mk=amk, seq=AIterable(d["seq"]), recs=AIterable(d["recs"]), empty=AIterable([]), words=AIterable(d["words"]),
                  recs2=AIterable(d["recs2"]))
     return d
 
@@ -165,6 +178,15 @@ SNIPS = [
     "{% for x in words %}{% import 'lib5.html' as L5 with context %}{{ L5.seen }}{{ L5.lv() }}{% endfor %}",
     "{% with x = fn(3) %}{% from 'lib5.html' import lv, seen with context %}{{ seen }}{{ lv() }}{% endwith %}",
     "{% macro im(x) %}{% import 'lib5.html' as L5 with context %}{{ L5.seen }}{% endmacro %}{{ im('M') }}{{ im(n) }}",
+    # |list of a list is a copy (identity and independence)
+    "{% set l = seq|list %}{{ l is sameas seq }}{{ l == (seq|list) }}", "{% set l = words|list %}{{ l.pop() }}{{ words|list|length }}",
+    # loops over iterables without len(): look-ahead before the length is asked for
+    "{% for x in seq if x %}{{ loop.last }}{{ loop.length }}{{ x }}{% endfor %}",
+    "{% for x in seq|map('string') %}{{ loop.nextitem }}{{ loop.revindex }}{{ x }};{% endfor %}",
+    "{% for x in geni() %}{{ loop.last }}{{ x }}{{ loop.revindex0 }}{{ loop.length }}{% endfor %}",
+    "{% for x in geni() %}{{ loop.length }}{{ loop.nextitem }}{{ x }}{% endfor %}",
+    # len() of the loop object (recorded finding C09-F9), StopIteration out of a data callable (C09-F10)
+    "{% for x in seq %}{{ loop|length }}{% endfor %}", "[{{ stop() }}]{{ stop() is undefined }}",
     # str start value of sum (recorded finding C09-F8)
     "{{ words|sum(start='') }}",
     "{{ (seq|list)[0] }}{{ seq|list|length }}", "{{ seq|list|sort|join }}", "{{ words|list|reverse|join }}",
@@ -455,6 +477,8 @@ def oracle(ctx, jinja2, loop):
             if out != expect:
                 cons = culprit_consumer(ts["main.html"])
                 sig = "sum with str start" if ("sum(start=''" in ts["main.html"] and expect == "exc:TypeError") else \
+                    "len() of the loop object in async mode" if ("loop|length" in ts["main.html"] and out == "exc:TypeError") else \
+                    "StopIteration from a coroutine callable" if ("stop()" in ts["main.html"] and wrapped and out == "exc:RuntimeError") else \
                     f"async generator fed to {cons}" if (cons and out.startswith("exc:")) else \
                     f"async differs: {cname} {entry}{' wrapped data' if wrapped else ''}"
                 ctx.reject({"templates": ts, "env": cname, "undefined": uname, "entry": entry, "mode": mode, "wrapped": wrapped, "expected": expect[:300],
